@@ -114,7 +114,7 @@ def parseFault (s : String) : Option (Option (Nat × FaultKind)) :=
     | [k, p] => do
       let p ← p.toNat?
       let k ← match k with
-        | "err" => some FaultKind.err | "perr" => some .panicErr | "pval" => some .panicVal | "cancel" => some .cancel | "eoferr" => some .errEof
+        | "err" => some FaultKind.err | "perr" => some .panicErr | "pval" => some .panicVal | "cancel" => some .cancel | "eoferr" => some .errEof | "peof" => some .panicErr | "errctx" => some .err
         | _ => none
       pure (some (p, k))
     | _ => none
